@@ -675,3 +675,72 @@ func TestFinding77to82_FourthBatch(t *testing.T) {
 		t.Errorf("after pushing and popping the caller's map, y = %v %v, want 2 true", v, ok)
 	}
 }
+
+// rows 83-91 — reflect preconditions that depend on the value (C11.R14: short list for an array parameter, NaN map
+// key, nil function-map entry), a collection passed by pointer (C04.R12), the empty v-show (C03.R16), bound props
+// that look like JSON (C05.R13), Unicode spaces in evaluated content (C02.R14), no filesystem (C11.R15)
+func TestFinding83to91_FifthBatch(t *testing.T) {
+	render := func(funcs vuego.FuncMap, tpl string, data any) (out string, err error) {
+		defer func() {
+			if r := recover(); r != nil {
+				err = errors.New("PANIC: " + strings.SplitN(toString(r), "\n", 2)[0])
+			}
+		}()
+		var buf bytes.Buffer
+		err = vuego.New(vuego.WithFuncs(funcs)).Fill(data).RenderString(context.Background(), &buf, tpl)
+		return strings.Join(strings.Fields(buf.String()), ""), err
+	}
+	funcs := vuego.FuncMap{"arr": func(a [2]int) int { return a[0] }, "nilf": nil}
+	// an error, not a panic
+	for _, tpl := range []string{`<p>{{ arr(xs) }}</p>`, `<p>{{ nilf() }}</p>`} {
+		if _, err := render(funcs, tpl, map[string]any{"xs": []int{1}}); err == nil || strings.Contains(err.Error(), "PANIC") {
+			t.Errorf("%s: err=%v, want an ordinary error", tpl, err)
+		}
+	}
+	if out, err := render(funcs, `<p>{{ arr(xs) }}</p>`, map[string]any{"xs": []int{7, 8}}); err != nil || out != "<p>7</p>" {
+		t.Errorf("a list of the right length still converts: %q %v", out, err)
+	}
+	// a NaN key: no panic, the other entries are rendered
+	if out, err := render(nil, `<b v-for="x in m">{{ x }}</b>`, map[string]any{"m": map[float64]any{math.NaN(): 1, 2: 3}}); err != nil || out != "<b>3</b>" {
+		t.Errorf("v-for over a map with a NaN key: %q %v", out, err)
+	}
+	for tpl, want := range map[string]string{
+		`<b v-for="c in ps">{{ c }}</b><p v-else>none</p>`:       `<b>1</b><b>2</b>`,
+		`<b v-for="c in pa">{{ c }}</b><p v-else>none</p>`:       `<b>1</b><b>2</b>`,
+		`<b v-for="c in np">{{ c }}</b><p v-else>none</p>`:       `<p>none</p>`,
+		`<p v-if="">if</p><p v-else>else</p><p v-show="">s</p>`: `<p>else</p><pstyle="display:none;">s</p>`,
+	} {
+		var np *[]int
+		out, err := render(nil, tpl, map[string]any{"ps": &[]int{1, 2}, "pa": &[2]int{1, 2}, "np": np})
+		if err != nil || out != want {
+			t.Errorf("%s: got %q err=%v, want %q", tpl, out, err, want)
+		}
+	}
+	// a bound string stays a string; JSON the template wrote itself is still decoded
+	out, err := renderFS(t, map[string]string{
+		"p.vuego": `<template include="c.vuego" :text="msg" :obj="o" v-bind:w="msg" lit='[1,2]'></template>`,
+		"c.vuego": `<p>{{ text | type }}|{{ obj | type }}|{{ w | type }}|{{ lit | type }}|{{ obj }}</p>`,
+	}, "p.vuego", map[string]any{"msg": "[1,2,3]", "o": "{}"})
+	if got := strings.Join(strings.Fields(out), ""); err != nil || got != `<p>string|string|string|[]interface{}|{}</p>` {
+		t.Errorf("bound props that look like JSON: %q %v", got, err)
+	}
+	// a no-break space is text
+	if out, err := renderStr(t, `<p v-html="h"></p><i v-text="h"></i>`, map[string]any{"h": "\u00a0a\u00a0"}); err != nil || !strings.Contains(out, "<p>\u00a0a\u00a0</p>") || !strings.Contains(out, "<i>\u00a0a\u00a0</i>") {
+		t.Errorf("Unicode spaces around evaluated content: %q %v", out, err)
+	}
+	// no filesystem: errors and no-ops, not nil-pointer panics
+	func() {
+		defer func() {
+			if r := recover(); r != nil {
+				t.Errorf("an engine without filesystem panicked: %v", r)
+			}
+		}()
+		var buf bytes.Buffer
+		if err := vuego.New(vuego.WithComponents()).RenderString(context.Background(), &buf, "<p>x</p>"); err != nil {
+			t.Errorf("New(WithComponents()) without filesystem: %v", err)
+		}
+		if err := vuego.NewLoader(nil).Stat("a.vuego"); err == nil {
+			t.Errorf("Loader.Stat without filesystem: nil error")
+		}
+	}()
+}
